@@ -4,8 +4,10 @@ REGISTRY = {
     "C02": "core",
     "C03": "core",
     "C05": "c05",
+    "C06": "core",
     "C10": "core",
     "C12": "c12",
     "C16": "c16",
+    "C20": "core",
     "C11": "core",
 }
